@@ -17,7 +17,8 @@ EXPLANATION = (
     'send, constant propagation of FIN/MASK/RSV through the Frame constructor sites, integer-interval analysis '
     'of the length-class arms against their struct formats (capacity and minimality), masking key/lanes/object '
     'identity, privacy of the masked buffer, RSV1 gating and the close payload layout. Decides these structural '
-    'premises; byte-level round-trip equality rests on XOR being an involution and struct packing.')
+    'premises; byte-level round-trip equality rests on XOR being an involution and struct packing.'
+    ' Also decided: package-wide isolation (objects created once per class or per function definition - class-level attributes, parameter defaults - are only read), so that no buffer, validator, cache, lock or option table is shared between connections by accident.')
 NOT_DECIDED = 'byte-level round-trip equality (value premise: XOR involution, struct.pack); JSON encoding'
 ASSUMPTIONS = ['struct.Struct(fmt).pack packs big-endian unsigned fields as documented',
                'bytes objects are immutable; bytearray(x) and bytes(x) copy']
